@@ -26,12 +26,14 @@ def make(d, mode="w", normalize=None, **kwargs):
     else:
         obj.degree_u, obj.degree_v, obj.degree_w = degs
     if d["rational"]:
-        if mode == "pw":
+        if mode in ("pw", "pww"):
             if d["kind"] == "curve":
                 obj.ctrlpts = [list(p) for p in d["P"]]
             else:
                 # surfaces/volumes need the sizes: seed with unit weights via set_ctrlpts, then the views
                 obj.set_ctrlpts(homogeneous(d["P"], [1.0] * len(d["P"])), *szs)
+            if mode == "pww":
+                obj.weights = [2.0 + 0.5 * (i % 3) for i in range(len(d["W"]))]      # a first, different set of weights
             obj.weights = list(d["W"])
         else:
             obj.set_ctrlpts(homogeneous(d["P"], d["W"]), *szs)
